@@ -5,21 +5,13 @@ import os
 
 HERE = os.path.dirname(os.path.dirname(os.path.abspath(__file__)))
 
-CHECKS = {
-    "C11": dict(
-        technique="TLA+ model (SmallMap.tla) checked by TLC; one implementation test per transition of its state graph; "
-                  "recorded histories validated by Trace_SmallMap.tla",
-        text="TLC explores every state of the SmallMap model (entries + incrementally maintained hash index) for small key "
-             "universes with colliding hashes and checks NoDup/IndexOK/LookupAgrees; every transition of that graph becomes an "
-             "operation history replayed on the real SmallMap/SmallSet/OrderedMap with block-expanded keys so the real index "
-             "threshold is crossed; long random histories on the real map are accepted only if they are behaviours of the model.",
-        note="Trusted: TLC, the harness comparison code, Json module. Bounds: 4 abstract keys, <=4 entries in the exhaustive part; "
-             "20 keys / thousands of operations in the trace part. Index policy (when an index exists) is not judged.",
-        design_ref="5/C11"),
-}
+CHECKS = {}
+for f in sorted(os.listdir(os.path.join(HERE, "lib", "checks"))):
+    if f.endswith(".json"):
+        CHECKS[f[:-5]] = json.load(open(os.path.join(HERE, "lib", "checks", f)))
 
-NOT_YET = {
-}
+# reasons for properties not (yet) claimed: lib/not_applicable.json {"Cxx": "reason"}
+NOT_YET = json.load(open(os.path.join(HERE, "lib", "not_applicable.json")))
 
 
 def main():
